@@ -429,6 +429,9 @@ class PyArrV(V):
                 raise OutOfReach("append of %s to a symbolic list" % args[0].kind)
             st.heap[self.ref] = [z3.Store(a, n, t), n + 1, False]
             st.ghost["last_py_append"] = args[0]
+            hook = st.ghost.get("on_py_append")
+            if hook is not None:
+                hook(st, self, n)
             return [Ev(st, NONE)]
         raise OutOfReach("object list method " + name)
 
